@@ -133,7 +133,22 @@ int run(const Options& o)
     auto per_value = [](auto tag, Agg& a, const auto& v, const std::string& cid) { check_value<typename decltype(tag)::type>(a, v, cid); };
     if (!o.only.empty())
     {
-        if (!run_single_value(o.only, rep, total, per_value)) { fprintf(stderr, "bad case id\n"); return -1; }
+        if (o.only.rfind("stored:", 0) == 0)
+        {
+            // "stored:<schema>[:variant[:path]]" - the stored-blob half is cheap: the whole schema is re-run
+            auto parts = split(o.only, ':');
+            auto sch = parts.size() > 1 ? wm::schema_by_name(parts[1]) : std::nullopt;
+            if (!sch) { fprintf(stderr, "bad case id\n"); return -1; }
+            auto r = run_isolated(300, [&](Emitter& em) {
+                Agg a;
+                wm::World w(*sch);
+                c02s::run_stored(w, a);
+                a.flush(em);
+            });
+            for (auto& l : r.lines) total.merge_line(l, rep);
+            if (r.status != CaseResult::Ok) rep.add(Violation{"stored.crash:" + r.crash_kind, "writing / reading stored blobs died (" + r.crash_kind + ") in " + r.crash_frame, o.only, Json(r.crash_head)});
+        }
+        else if (!run_single_value(o.only, rep, total, per_value)) { fprintf(stderr, "bad case id\n"); return -1; }
         for (auto& kv : rep.firsts()) printf("  %s: %s %s\n", kv.first.c_str(), kv.second.what.c_str(), kv.second.detail.dump(0).c_str());
         return rep.finish();
     }
@@ -161,7 +176,7 @@ int run(const Options& o)
         p["tasks_completed"] = (long long)cfg.tasks_done;
         completed.push(p);
     }
-    // stored-blob half: blobs written through create_track on every schema, read back by raw SQL and decoded with refcodec
+    // stored-blob half: blobs written through create_track, update and the single-field setters on every schema, read back by raw SQL and decoded with refcodec
     {
         auto schemas = wm::all_schemas();
         auto res = run_pool(schemas.size(), o.jobs, 300, [&](size_t si, Emitter& em) {
@@ -191,7 +206,7 @@ int run(const Options& o)
         "For every value v: refcodec.decode(unframe(lib.encode(v))) must equal the Engine layout of v field for field (and the frame must be exactly 4-byte BE length + one complete "
         "zlib stream), and lib.decode(frame(refcodec.encode(v))) must equal v, with the foreign blob compressed at zlib level -1/0/1/9 (chosen by case hash) and, for 1.x beat data, "
         "also with Engine's nine trailing zero bytes. Stored half: five snapshot variants (all slots, edge slots with 255-byte labels and four different colour channel values, short lists, three-marker grid) are "
-        "written with create_track on all 18 schemas; the raw quickCues / loops / beatData / trackData columns are read by raw SQL and decoded with refcodec and must hold exactly the content the Engine layout "
+        "written on all 18 schemas along four paths (create_track; update over a different stored snapshot; the eight blob-backed single-field setters over a different stored snapshot, in forward and in reverse order); the raw quickCues / loops / beatData / trackData columns are read by raw SQL and decoded with refcodec and must hold exactly the content the Engine layout "
         "prescribes for the snapshot (8 slots, empty slot = offset -1, channel order a,r,g,b, beats-to-next-marker, main cue twice, loudness three times on 2.x). Distinct = distinct (codec, payload) pairs; validated = comparisons that were carried out and agreed.";
     c["exhaustive"] = exhaustive;
     Json b = Json::object();
